@@ -172,7 +172,9 @@ META = {
              'alone helpers compute the same real functions as the backend (exact division licensed by the constructor '
              'assertion, whose presence is checked), and that the integer accounting quantities are not obtained by truncating'
              ' float quotients. Also decided: record() requests exactly num_blocks blocks (file/block loop trip counts) and '
-             'the sub-blocks of a block cover all its spectra. The floating-point value of time products is not decided.',
+             'the sub-blocks of a block cover all its spectra (every sub-block requests a full sub-block of windows, only a '
+             'trailing partial one is shortened to the remainder; stated on the request to the antenna source). The floating-'
+             'point value of time products is not decided.',
     'note': 'Real arithmetic; kinds (Int/Rat/Real) come from a name table of the configuration attributes; '
             'divisibility of block_size is taken from the constructor assert.',
 }
